@@ -153,6 +153,9 @@ def c11(mir, rec):
                 got_fn = b.get("fn", b.get("function_id"))
                 if got_fn != want_fn:
                     v.append(("binding", f"{n}#{k} is bound to function {got_fn}, the program passed function {want_fn}"))
+                if ids.count(got_fn) != 1:
+                    v.append(("fn-twice" if ids.count(got_fn) > 1 else "fn-missing",
+                              f"{n}#{k} is bound to function {got_fn}, which is emitted {ids.count(got_fn)} times"))
                 if c["op"] == "call":
                     from ..ir import bound_args, fn_param_names
                     want_args = [facts["child_ids"].get(a) for a in (bound_args(c, fn_param_names(events).get(c["f"])) or [])]
